@@ -8,7 +8,7 @@ Engine E1 (product-space enumeration).  Alphabet
   quadruples;
 * an exactly realisable family: analytic moments of uni/bi-modal von-Mises distributions from
   isotropic to 3 degrees wide at 24 mean directions;
-* N directions in {8, 36, 180} (thorough adds the odd grid N = 9), grids starting at 0 (what
+* N directions in {8, 9, 36, 180} (9: an odd grid on which 90 and 180 degrees are not nodes), grids starting at 0 (what
   `as_frequency_direction_spectrum` builds) and, through the function interface, uniform grids
   with three other origins;
 * all four estimator variants;
@@ -35,8 +35,8 @@ from mc.common import Collector, make_1d
 ID = "C05"
 LEVEL = "exploration"
 RULE = (
-    "full Cartesian product: moment lattice {k/n}^4 with a1^2+b1^2<1 (n=4 quick, n=10 thorough) x N in {8,36,180} "
-    "(thorough also 9) x variant {mem, mem2/newton, mem2/scipy, mem2/approximate}; plus a von-Mises family "
+    "full Cartesian product: moment lattice {k/n}^4 with a1^2+b1^2<1 (n=4 quick, n=10 thorough) x N in {8,9,36,180} "
+    "x variant {mem, mem2/newton, mem2/scipy, mem2/approximate}; plus a von-Mises family "
     "(10 widths x 24 mean directions x 7 modalities) x N x variant; plus the coarse lattice x 3 further grid origins x "
     "N in {8,36} x variant; plus the coarse lattice through 4 array shapes / single elements and through spectrum "
     "objects in 4 layouts (batch vs. singleton, round trip, carried coordinates). A member (variant, N, grid, "
@@ -53,7 +53,7 @@ ASSUMPTIONS = [
 REQUIRED_CATEGORIES = [
     "class_interior", "class_realisability_boundary", "class_unrealisable",
     "variant_mem", "variant_mem2/newton", "variant_mem2/scipy", "variant_mem2/approximate",
-    "N_8", "N_36", "N_180", "newton_converged", "newton_not_converged",
+    "N_8", "N_9", "N_36", "N_180", "newton_converged", "newton_not_converged",
     "vonmises_narrow_le_5deg", "vonmises_isotropic", "vonmises_bimodal",
     "grid_origin_shifted", "shape_(nf,)", "shape_(nt,nf)", "shape_(nt,nx,nf)", "shape_single_element",
     "layout_scalar", "layout_time", "layout_time_lat", "layout_flat",
@@ -90,7 +90,7 @@ def tier_n(tier):
 
 
 def tier_N(tier):
-    return [8, 36, 180] if tier == "quick" else [8, 9, 36, 180]
+    return [8, 9, 36, 180]
 
 
 def bessel_ratio(order, kappa):
@@ -244,7 +244,8 @@ def evaluate(variant, Q, direction, agg, keybase, max_located=12):
                 located[0] += 1
                 cls = str(classify(Q[lo:hi])[0])
                 agg.add(
-                    dict(keybase, check="raises", exception=type(exc).__name__, quad=qstr(Q[lo])),
+                    dict(keybase, check="raises", exception=type(exc).__name__, message=str(exc)[:80],
+                         **{"class": cls}, quad=qstr(Q[lo])),
                     f"{variant} N={N} raises {type(exc).__name__}: {exc} for (a1,b1,a2,b2)={qstr(Q[lo])} [{cls}]",
                     quad_class=cls, traceback=tb_tail(exc),
                 )
